@@ -291,4 +291,32 @@ theorem rebuild_cycle (repaired : Bool) (l : Loc) (hwf : geneWF l = true) (ld tl
     · rw [hc', hbases, sliceL_take _ _ _ _ (by omega)]
     · rw [hb', hbases, sliceL_take _ _ _ _ (by omega)]
 
+/-! ### partial genes -/
+
+theorem subLocationFuzzy_eq (amb : Bool) (l : Loc) (s e : Int) (h : e ≤ l.len / 3 ∨ amb = false) :
+    subLocationFuzzy amb l s e = subLocation l s e := by
+  unfold subLocationFuzzy
+  split
+  · rename_i h1; unfold subLocation; rw [if_pos h1]
+  · rename_i h1
+    split
+    · rfl
+    · rename_i h2
+      have hv : subLocation l s e = .valueError := by
+        unfold subLocation
+        rw [if_neg h1, if_pos (by simp at h2 ⊢; omega)]
+      rw [hv]
+      split
+      · rename_i h3
+        simp only [Bool.and_eq_true, decide_eq_true_eq] at h2 h3
+        rcases h with h | h
+        · omega
+        · rw [h] at h3; exact absurd h3.2 (by simp)
+      · rfl
+
+theorem subLocationFuzzy_truncates (l : Loc) (s e : Int) (h0 : 0 ≤ s) (hs : s < l.len / 3) (he : l.len / 3 < e) :
+    subLocationFuzzy true l s e = subLocation l s (l.len / 3) := by
+  unfold subLocationFuzzy
+  rw [if_neg (by simp; omega), if_neg (by simp; omega), if_pos (by simp; omega)]
+
 end ASV.ProtDna
